@@ -303,6 +303,9 @@ func propC16Giant(ch core.Chooser, st *core.Stats) error {
 		}
 	}()
 	delta := ch.Int("delta", 0, 1) // MaxValueLength or MaxValueLength-1
+	if !core.Thorough() {
+		delta = 0 // the single quick case sits exactly on the limit
+	}
 	n := pogreb.MaxValueLength - delta
 	kl := core.PickInt(ch, "klen", []int{0, 1, 65535})
 	k := []byte(c16Key(kl, 0))
